@@ -9,6 +9,8 @@
 import DiskfsModel.Proofs.GptCrash
 import DiskfsModel.Proofs.GptWhole
 import DiskfsModel.Proofs.GptCrashFlat
+import DiskfsModel.Proofs.GptGeomCrash
+import DiskfsModel.Proofs.GptCrashDegraded
 import DiskfsModel.Generated.GptCrash
 namespace Diskfs.GptCrash.C09
 
@@ -315,5 +317,266 @@ example : ∀ h, Diskfs.Gpt.readHeader (fun _ => 0) (readAt (fun _ => 0) 512 512
 example : ∃ (R : Reader Nat Nat 1) (old new : Disk Nat 1), OldOk R old ∧ NewOk R new ∧ NoCrcCollision R old new := by
   obtain ⟨R, o, n, h1, h2, h3, _⟩ := GptCrash.order_matters
   exact ⟨R, o, n, h1, h2, h3⟩
+
+/-! ### ANY WELL-FORMED GEOMETRY (Model/GptGeom.lean, Proofs/GptGeom*.lean): tables gpt.Read returned from a
+    foreign disk and that were then edited — other entry counts (4, 30, 32, 64, 256, …), arrays that do not end
+    on a sector boundary, aligned first usable LBA, any sector size ≥ 512 — and fresh tables on any sector
+    size ≥ 512.  `writeUp` is table.go Write as it is now (array sectors rounded UP, b8755c1); an initialised
+    table keeps the geometry its header carried and Write ignores its size argument. -/
+
+open Diskfs.Gpt in
+/-- BRIDGE: on the domain of the theorems above (fresh table, 512/4096-byte sectors) the model the driver
+    executes, `writeUp`, IS `write` -/
+theorem write_up_is_write_fresh (c : Cfg) (crc : Bytes → Nat) (t0 : Table) (size : Nat) (hf : Fresh t0)
+    (hl : t0.lss = 512 ∨ t0.lss = 4096) : writeUp c crc t0 size = write c crc t0 size :=
+  writeUp_eq_write c crc t0 size hf hl
+
+open Diskfs.Gpt in
+/-- REGIONS, any geometry satisfying `GeomWF`: p = ⌈n·128 / lss⌉ ≥ 1 sectors hold the array (its bytes reach
+    into the last of them); primary array at 2·lss, backup array at (AlternateLBA − p)·lss, backup header at
+    AlternateLBA·lss = the device's last LBA: in this order, without overlap, inside the device -/
+theorem regions_disjoint_geom (t : Table) (size : Nat) (hg : GeomWF t size) :
+    1 ≤ partSectorsUp t ∧ arrBytes t ≤ partSectorsUp t * t.lss ∧ partSectorsUp t * t.lss < arrBytes t + t.lss ∧
+    offPA t = 2 * t.lss ∧ 2 * t.lss + partSectorsUp t * t.lss ≤ offBA t ∧
+    offBA t + partSectorsUp t * t.lss = offBH t ∧ offBH t + t.lss ≤ size ∧
+    partSectorsUp t ≤ t.secondaryHeader ∧ t.secondaryHeader < two63 :=
+  geom_layout t size hg
+
+open Diskfs.Gpt in
+/-- WRITE LIST, EXACTLY, any geometry: backup array, backup header, primary array at 2·lss, primary header at
+    lss, the protective-MBR bytes first (as found) or last (repaired); both arrays the same n·128 bytes -/
+theorem write_list_shape_geom (c : Cfg) (crc : Bytes → Nat) (t : Table) (size : Nat) (ws : List Wr) (t' : Table)
+    (hg : GeomWF t size) (hw : writeUp c crc t size = .ok (ws, t')) :
+    ∃ arr ps, arrEnc c t = .ok (arr, ps) ∧ arr.length = arrBytes t ∧ t' = { t with parts := ps } ∧
+      ws = (if c.pmbrLast then coreUp crc t arr ++ pmWrs c t else pmWrs c t ++ coreUp crc t arr) :=
+  writeUp_geom_exact c crc t size ws t' hg hw
+
+open Diskfs.Gpt in
+/-- a fresh table on ANY sector size ≥ 512 (1024, 2048, 8192, …) becomes a table of well-formed geometry, and
+    Write of the fresh table is Write of that table -/
+theorem fresh_is_geom (c : Cfg) (crc : Bytes → Nat) (t0 : Table) (size : Nat) (hf : Fresh t0) (hl : 512 ≤ t0.lss)
+    (hg : t0.guid.length = 16) (hsz : size < two63)
+    (hmin : (2 * ((16384 + t0.lss - 1) / t0.lss) + 3) * t0.lss ≤ size) :
+    GeomWF (initTableUp t0 size) size ∧ writeUp c crc t0 size = writeUp c crc (initTableUp t0 size) size :=
+  ⟨(initTableUp_geom t0 size hf hl hg hsz hmin).1, writeUp_fresh c crc t0 size hf⟩
+
+open Diskfs.Gpt in
+/-- ONE FLAT WRITE = ONE FIELD, any geometry: each of the five writes changes exactly its own field of the
+    record view `toDiskG` (sectors of the array: the last one short when the array does not end on a
+    sector boundary) -/
+theorem flat_write_one_field_geom (g : Geo) (size : Nat) (G : g.OK size)
+    (D : Dev) (a b pm : Bytes) (ha : a.length = g.ab) (hb : b.length = g.lss) (hpm : pm.length = 66) :
+    toDiskG (applyWr D ⟨g.aB * g.lss, a⟩) g = { toDiskG D g with ba := sectorsG g.lss g.ab g.p a } ∧
+    toDiskG (applyWr D ⟨g.hB * g.lss, b⟩) g = { toDiskG D g with bh := b } ∧
+    toDiskG (applyWr D ⟨g.aP * g.lss, a⟩) g = { toDiskG D g with pa := sectorsG g.lss g.ab g.p a } ∧
+    toDiskG (applyWr D ⟨g.lss, b⟩) g = { toDiskG D g with ph := b } ∧
+    toDiskG (applyWr D ⟨446, pm⟩) g = { toDiskG D g with mbr := readAt (applyWr D ⟨446, pm⟩) 0 g.lss } :=
+  have L := lay_of G
+  ⟨toDiskG_write_ba L D a ha, toDiskG_write_bh L D b hb, toDiskG_write_pa L D a ha, toDiskG_write_ph L D b hb,
+    toDiskG_write_pm L D pm hpm⟩
+
+open Diskfs.Gpt in
+/-- SECTOR SUBSET IS MIX, any array length: an in-flight array write with ANY subset of its sectors applied —
+    the piece for the last sector is shorter when n·128 is not a multiple of the sector size — is
+    `mix keep new old` of that array at record level and leaves the other four regions alone -/
+theorem sector_subset_is_mix_geom (g : Geo) (size : Nat) (G : g.OK size) (D : Dev) (a : Bytes) (ha : a.length = g.ab)
+    (keep : Nat → Bool) :
+    toDiskG (applyWrs D (tornPieces g.lss ⟨g.aP * g.lss, a⟩ keep)) g =
+      { toDiskG D g with pa := mix (fun i => keep i.val) (sectorsG g.lss g.ab g.p a) (toDiskG D g).pa } ∧
+    toDiskG (applyWrs D (tornPieces g.lss ⟨g.aB * g.lss, a⟩ keep)) g =
+      { toDiskG D g with ba := mix (fun i => keep i.val) (sectorsG g.lss g.ab g.p a) (toDiskG D g).ba } :=
+  have L := lay_of G
+  ⟨toDiskG_torn_pa L D a ha keep, toDiskG_torn_ba L D a ha keep⟩
+
+open Diskfs.Gpt in
+/-- BYTEWISE form of the fault model for a write of ANY length: after a torn write byte `j` is new exactly
+    when it lies in the write's range and its sector of the write was kept -/
+theorem torn_write_bytewise (d : Dev) (lss : Nat) (hl : 0 < lss) (w : Wr) (keep : Nat → Bool) (j : Nat) :
+    applyWrs d (tornPieces lss w keep) j =
+      if w.off ≤ j ∧ j < w.off + w.data.length ∧ keep ((j - w.off) / lss) = true then w.data.getD (j - w.off) 0
+      else d j :=
+  torn_byte d lss hl w keep j
+
+open Diskfs.Gpt in
+/-- READER REFINEMENT, any geometry: `Gpt.read` on the flat device equals the record-level reader
+    instantiated with the real decoders for geometry `g` (`flatReaderG`) on the record view `toDiskG` -/
+theorem flat_read_refines_geom (c : Cfg) (crc : Bytes → Nat) (d : Dev) (size : Nat) (g : Geo) (G : g.OK size)
+    (hP : PStdG crc d g) (hB : BStdG crc d g) :
+    outOf (Gpt.read c crc d size g.lss).1 = GptCrash.read (flatReaderG crc g) (toDiskG d g) :=
+  read_refinesG c crc d size g G hP hB
+
+open Diskfs.Gpt in
+/-- CRASH STATES REFINE, any geometry: what the repaired Write emits for an initialised table of well-formed
+    geometry over ANY device; the completed device itself satisfies the premises put on an old device -/
+theorem flat_crash_states_refine_geom (c : Cfg) (hpl : c.pmbrLast = true) (crc : Bytes → Nat) (hcrc : ∀ b, crc b < two32)
+    (d0 : Dev) (t : Table) (size : Nat) (ws : List Wr) (t' : Table)
+    (hg : GeomWF t size) (hpm : t.pmbr = true) (hw : writeUp c crc t size = .ok (ws, t')) (k : Nat) (keep : Nat → Bool) :
+    NewOk (flatReaderG crc (geoOf t)) (toDiskG (applyWrs d0 ws) (geoOf t)) ∧
+    PStdG crc (applyWrs d0 ws) (geoOf t) ∧ BStdG crc (applyWrs d0 ws) (geoOf t) ∧
+    OldOkFlatG crc (applyWrs d0 ws) (geoOf t) ∧
+    Crash false (toDiskG d0 (geoOf t)) (toDiskG (applyWrs d0 ws) (geoOf t))
+      (toDiskG (crashDev d0 t.lss ws k keep) (geoOf t)) :=
+  write_crash_setupG c hpl crc hcrc d0 t size ws t' hg hpm hw k keep
+
+open Diskfs.Gpt in
+/-- C09 ON THE FLAT MODEL FOR ANY WELL-FORMED GEOMETRY (GPT over GPT).  `t`: an initialised table — what
+    gpt.Read returned, edited — with `GeomWF t size`; `d0`: any device with a valid primary GPT of that geometry
+    (`OldOkFlatG`) whose last sector, if it validates as a backup header, describes it (`BStdG`) — both hold
+    for every device Write produced for such a table (`flat_crash_states_refine_geom`).  For EVERY prefix
+    length `k` and EVERY sector subset `keep` of the write in flight `Gpt.read` of the crash device succeeds
+    and returns exactly the partition list read from `d0` or exactly the one read after the completed write,
+    which is read from the primary copy.  Explicit premises: sector atomicity, `NoCrcCollisionG`. -/
+theorem gpt_crash_atomic_geom (c : Cfg) (hpl : c.pmbrLast = true) (crc : Bytes → Nat) (hcrc : ∀ b, crc b < two32)
+    (d0 : Dev) (t : Table) (size : Nat) (ws : List Wr) (t' : Table)
+    (hg : GeomWF t size) (hpm : t.pmbr = true) (hw : writeUp c crc t size = .ok (ws, t'))
+    (hOld : OldOkFlatG crc d0 (geoOf t)) (hOldB : BStdG crc d0 (geoOf t))
+    (hColl : NoCrcCollisionG crc t.lss (readAt d0 (2 * t.lss) (arrBytes t)) (readAt (applyWrs d0 ws) (2 * t.lss) (arrBytes t)))
+    (k : Nat) (keep : Nat → Bool) :
+    ∃ po pn, outOf (Gpt.read c crc d0 size t.lss).1 = .ok po false ∧
+      outOf (Gpt.read c crc (applyWrs d0 ws) size t.lss).1 = .ok pn false ∧
+      ((outOf (Gpt.read c crc (crashDev d0 t.lss ws k keep) size t.lss).1).parts? = some po ∨
+       (outOf (Gpt.read c crc (crashDev d0 t.lss ws k keep) size t.lss).1).parts? = some pn) :=
+  crash_atomic_flatG c hpl crc hcrc d0 t size ws t' hg hpm hw hOld hOldB hColl k keep
+
+open Diskfs.Gpt in
+/-- …in particular for a FRESH table on any sector size ≥ 512 (the theorem `gpt_crash_atomic_flat` above is
+    the 512/4096 case) -/
+theorem gpt_crash_atomic_fresh_any_sector_size (c : Cfg) (hpl : c.pmbrLast = true) (crc : Bytes → Nat)
+    (hcrc : ∀ b, crc b < two32) (d0 : Dev) (t0 : Table) (size : Nat) (ws : List Wr) (t' : Table)
+    (hf : Fresh t0) (hl : 512 ≤ t0.lss) (hgd : t0.guid.length = 16) (hsz : size < two63)
+    (hmin : (2 * ((16384 + t0.lss - 1) / t0.lss) + 3) * t0.lss ≤ size) (hpm : t0.pmbr = true)
+    (hw : writeUp c crc t0 size = .ok (ws, t'))
+    (hOld : OldOkFlatG crc d0 (geoOf (initTableUp t0 size))) (hOldB : BStdG crc d0 (geoOf (initTableUp t0 size)))
+    (hColl : NoCrcCollisionG crc t0.lss (readAt d0 (2 * t0.lss) 16384) (readAt (applyWrs d0 ws) (2 * t0.lss) 16384))
+    (k : Nat) (keep : Nat → Bool) :
+    ∃ po pn, outOf (Gpt.read c crc d0 size t0.lss).1 = .ok po false ∧
+      outOf (Gpt.read c crc (applyWrs d0 ws) size t0.lss).1 = .ok pn false ∧
+      ((outOf (Gpt.read c crc (crashDev d0 t0.lss ws k keep) size t0.lss).1).parts? = some po ∨
+       (outOf (Gpt.read c crc (crashDev d0 t0.lss ws k keep) size t0.lss).1).parts? = some pn) := by
+  obtain ⟨hg, _, _, hpm', hl', hac⟩ := initTableUp_geom t0 size hf hl hgd hsz hmin
+  rw [writeUp_fresh c crc t0 size hf] at hw
+  have hab : arrBytes (initTableUp t0 size) = 16384 := by unfold arrBytes; rw [hac]
+  have := crash_atomic_flatG c hpl crc hcrc d0 (initTableUp t0 size) size ws t' hg (by rw [hpm']; exact hpm) hw hOld hOldB
+    (by rw [hl', hab]; exact hColl) k keep
+  rw [hl'] at this
+  exact this
+
+open Diskfs.Gpt in
+/-- first-ever write, any geometry: old = no table; every crash state reads as an error (as before) or as
+    exactly the partition list of the completed write -/
+theorem blank_old_geom (c : Cfg) (hpl : c.pmbrLast = true) (crc : Bytes → Nat) (hcrc : ∀ b, crc b < two32)
+    (d0 : Dev) (t : Table) (size : Nat) (ws : List Wr) (t' : Table)
+    (hg : GeomWF t size) (hpm : t.pmbr = true) (hw : writeUp c crc t size = .ok (ws, t'))
+    (hNoP : ∀ h, readHeader crc (readAt d0 t.lss t.lss) ≠ .ok h)
+    (hNoB : ∀ h, readHeader crc (readAt d0 (offBH t) t.lss) ≠ .ok h)
+    (k : Nat) (keep : Nat → Bool) :
+    ∃ pn, outOf (Gpt.read c crc d0 size t.lss).1 = .err ∧
+      outOf (Gpt.read c crc (applyWrs d0 ws) size t.lss).1 = .ok pn false ∧
+      (outOf (Gpt.read c crc (crashDev d0 t.lss ws k keep) size t.lss).1 = .err ∨
+       (outOf (Gpt.read c crc (crashDev d0 t.lss ws k keep) size t.lss).1).parts? = some pn) :=
+  blank_old_flatG c hpl crc hcrc d0 t size ws t' hg hpm hw hNoP hNoB k keep
+
+open Diskfs.Gpt in
+/-- first-ever write seen through partition.Read, any geometry (repaired order and repaired reader) -/
+theorem first_write_atomic_geom (c : Cfg) (hpl : c.pmbrLast = true) (hab : c.arrayBounded = true)
+    (crc : Bytes → Nat) (hcrc : ∀ b, crc b < two32)
+    (d0 : Dev) (t : Table) (size : Nat) (ws : List Wr) (t' : Table)
+    (hg : GeomWF t size) (hpm : t.pmbr = true) (hw : writeUp c crc t size = .ok (ws, t'))
+    (hNoP : ∀ h, readHeader crc (readAt d0 t.lss t.lss) ≠ .ok h)
+    (hNoB : ∀ h, readHeader crc (readAt d0 (offBH t) t.lss) ≠ .ok h)
+    (k : Nat) (keep : Nat → Bool) :
+    ∃ pn, outP (PartTable.read c crc (applyWrs d0 ws) size t.lss).1 = .gpt pn ∧
+      (outP (PartTable.read c crc (crashDev d0 t.lss ws k keep) size t.lss).1 =
+          outP (PartTable.read c crc d0 size t.lss).1 ∨
+       outP (PartTable.read c crc (crashDev d0 t.lss ws k keep) size t.lss).1 = .gpt pn) :=
+  first_write_atomic_flatG c hpl hab crc hcrc d0 t size ws t' hg hpm hw hNoP hNoB k keep
+
+/-! ### what goes wrong WITHOUT `GeomWF`, and on a disk that reads only from its backup copy -/
+
+/-- a table as gpt.Read returns it for a valid foreign GPT with 30 entries on a disk of 100 sectors of 512 bytes
+    (array of 3840 bytes = 7.5 sectors) -/
+def cexT30 : Diskfs.Gpt.Table :=
+  { parts := [], lss := 512, guid := List.replicate 16 3, pmbr := true, initialized := true, arrCount := 30,
+    entSize := 128, firstLBA := 2, primaryHeader := 1, secondaryHeader := 99, firstData := 34, lastData := 90 }
+
+set_option maxRecDepth 100000 in
+/-- AS FOUND (before b8755c1; `Gpt.write`, array sectors rounded DOWN): for the 30-entry table the backup array
+    (3840 bytes from LBA 99 − 7 = 92) runs into the backup header's sector (LBA 99) — finding
+    gpt-backup-array-overlaps-header —; with the sectors rounded UP (`writeUp`, the code as it is now) the
+    table has well-formed geometry and the backup array ends before the header -/
+theorem floor_rounding_overlaps_backup_header :
+    (match Diskfs.Gpt.write Diskfs.Gpt.Cfg.fixed (fun _ => 0) cexT30 51200 with
+     | .ok (ba :: bh :: _, _) => decide (ba.off = 92 * 512 ∧ bh.off = 99 * 512 ∧ ba.off + ba.data.length > bh.off)
+     | _ => false) = true ∧
+    (match Diskfs.Gpt.writeUp Diskfs.Gpt.Cfg.fixed (fun _ => 0) cexT30 51200 with
+     | .ok (ba :: bh :: _, _) => decide (ba.off = 91 * 512 ∧ bh.off = 99 * 512 ∧ ba.off + ba.data.length ≤ bh.off)
+     | _ => false) = true ∧
+    Diskfs.Gpt.GeomWF cexT30 51200 := by decide
+
+/-- the table gpt.Read returns on a disk that has GROWN from 50 to 100 sectors since it was partitioned
+    (AlternateLBA still 49) -/
+def cexGrown : Diskfs.Gpt.Table :=
+  { parts := [], lss := 4096, guid := List.replicate 16 3, pmbr := true, initialized := true, arrCount := 128,
+    entSize := 128, firstLBA := 2, primaryHeader := 1, secondaryHeader := 49, firstData := 6, lastData := 44 }
+
+set_option maxRecDepth 100000 in
+/-- GROWN DISK (finding gpt-rewrite-grown-disk-no-fallback): Write keeps the header's geometry and ignores
+    its size argument — the new backup header goes to the OLD AlternateLBA (49), not to the device's last
+    LBA (99) where gpt.Read's fallback looks; `GeomWF` fails in exactly its `sh` clause, and after
+    Table.Repair(size) (`repairUp`) the geometry is well formed again -/
+theorem grown_disk_backup_not_at_last_lba :
+    (match Diskfs.Gpt.writeUp Diskfs.Gpt.Cfg.fixed (fun _ => 0) cexGrown (100 * 4096) with
+     | .ok (_ :: bh :: _, _) => decide (bh.off = 49 * 4096 ∧ bh.off ≠ (100 * 4096 / 4096 - 1) * 4096)
+     | _ => false) = true ∧
+    ¬ Diskfs.Gpt.GeomWF cexGrown (100 * 4096) ∧
+    Diskfs.Gpt.GeomWF (Diskfs.Gpt.repairUp cexGrown (100 * 4096)) (100 * 4096) := by decide
+
+/-- …and at record level: when the backup copy Write produces is not where the reader looks, the state
+    "primary array in flight" reads as an error — neither old nor new -/
+theorem grown_rewrite_not_atomic :
+    ∃ (R : Reader Nat Nat 1) (old d : Disk Nat 1) (newPa : Fin 1 → Nat),
+      OldOk R old ∧ R.hdrB old.bh = none ∧ d = { old with pa := mix (fun _ => true) newPa old.pa } ∧
+      read R old = .ok (R.parts old.pa) false ∧ read R d = .err :=
+  GptCrash.grown_rewrite_not_atomic
+
+/-- DEGRADED PRIMARY, positive part: the old disk reads only from its backup copy (`OldDegraded`: what an
+    interrupted Write leaves; gpt.Read sets RecoveredFromBackup) and THE SAME table is written again — the
+    retry Read's documentation asks for; same array, same backup header bytes.  Every crash state of the
+    repaired Write reads as exactly that table (old = new). -/
+theorem retry_same_table_atomic {S P : Type} {n : Nat} (R : Reader S P n) (old new : Disk S n)
+    (hOld : OldDegraded R old) (hNew : NewOk R new) (hba : new.ba = old.ba) (hbh : new.bh = old.bh)
+    (hStale : ∀ c, R.hdrP old.ph = some c → ∀ keep : Fin n → Bool,
+      R.crc (mix keep new.pa old.pa) = c → R.parts (mix keep new.pa old.pa) = R.parts new.pa)
+    (d : Disk S n) (hd : Crash false old new d) :
+    (read R d).parts? = some (R.parts old.ba) ∧ read R old = .ok (R.parts old.ba) true :=
+  ⟨GptCrash.retry_same_table_atomic R old new hOld hNew hba hbh hStale d hd, degraded_reads_backup R old hOld⟩
+
+/-- DEGRADED PRIMARY, negative part (finding gpt-rewrite-over-degraded-primary): a DIFFERENT table written
+    over such a disk — Write destroys the only valid copy first: a crash in the first two synced writes
+    leaves a disk that does not read -/
+theorem degraded_other_table_not_atomic :
+    ∃ (R : Reader Nat Nat 1) (old new d : Disk Nat 1),
+      OldDegraded R old ∧ NewOk R new ∧ Crash false old new d ∧ read R d = .err :=
+  GptCrash.degraded_other_table_not_atomic
+
+/-- for the record (NOT what the code does): the order primary array → primary header → backup array → backup
+    header is atomic over a disk that reads only from its backup, for any new table -/
+theorem primary_first_atomic_over_degraded {S P : Type} {n : Nat} (R : Reader S P n) (old new : Disk S n)
+    (hOld : OldDegraded R old) (hNew : NewOk R new)
+    (hStale : ∀ c, R.hdrP old.ph = some c → ∀ keep : Fin n → Bool,
+      R.crc (mix keep new.pa old.pa) = c → R.parts (mix keep new.pa old.pa) = R.parts new.pa ∨
+        R.parts (mix keep new.pa old.pa) = R.parts old.ba)
+    (d : Disk S n) (hd : CrashPF old new d) :
+    (read R d).parts? = some (R.parts old.ba) ∨ (read R d).parts? = some (R.parts new.pa) :=
+  GptCrash.primary_first_atomic_over_degraded R old new hOld hNew hStale d hd
+
+-- non-vacuity: `GeomWF cexT30` and the accepted Write are in `floor_rounding_overlaps_backup_header`; a device
+-- Write produced satisfies OldOkFlatG / BStdG (`flat_crash_states_refine_geom`); a degraded old disk, a new
+-- one with the same backup side and a crash state between them:
+example : ∃ (R : Reader Nat Nat 1) (old new : Disk Nat 1), OldDegraded R old ∧ NewOk R new ∧ new.ba = old.ba ∧
+    new.bh = old.bh ∧ Crash false old new new :=
+  ⟨⟨fun s => if s = 0 then none else some s, fun s => if s = 0 then none else some s, fun a => a 0, fun a => a 0⟩,
+    ⟨0, 0, fun _ => 7, fun _ => 1, 1⟩, ⟨0, 1, fun _ => 1, fun _ => 1, 1⟩, ⟨rfl, Or.inl rfl⟩, ⟨rfl, rfl, rfl⟩, rfl, rfl,
+    complete_is_crash_state false _ _⟩
 
 end Diskfs.GptCrash.C09
